@@ -21,7 +21,7 @@ def validate(ctx, events, table, label):
     for d in res.raw_items("END"):
         sid, flag = [int(x.strip()) for x in d.split(",")[:2]]
         ends.setdefault(sid, set()).add(flag)
-    devs = sorted(sid for sid, fl in ends.items() if fl == {1})     # reached its end only with a deviation action
+    devs = sorted((sid, min(fl)) for sid, fl in ends.items() if 0 not in fl)   # reached its end only with a deviation action
     return accepted, devs, res
 
 
@@ -38,8 +38,11 @@ def run(ctx, prop="C08"):
         lines = pipeline.make_lines(rng, n)
         slow = rng.choice([0.2, 1, 1, 3]) if not race else rng.choice([1, 3, 6])
         sched = pipeline.make_schedule(rng, lines, slow)
-        steps = pipeline.make_steps(rng, rng.randint(6, 30), rng.choice([0.3, 1, 2]))
-        jobs.append((sid, lines, sched, steps))
+        nrel = rng.choice([0, 0, 1, 2]) if not race else 0
+        relines = [pipeline.make_lines(rng, rng.choice([0, 5, 120, 900])) for _ in range(nrel)]
+        rescheds = [pipeline.make_schedule(rng, rl, slow) for rl in relines]
+        steps = pipeline.make_steps(rng, rng.randint(6, 30), rng.choice([0.3, 1, 2]), reloads=nrel, excludes=rng.random() < 0.5)
+        jobs.append((sid, lines, sched, steps, relines, rescheds))
     if ctx.replay:
         rp = json.load(open(ctx.replay))["case"]
         acc, devs, res = validate(ctx, rp["events"], rp["table"], "replay")
@@ -51,10 +54,14 @@ def run(ctx, prop="C08"):
         return "model_checking"
 
     def do(job):
-        sid, lines, sched, steps = job
-        tr, get = pipeline.run_session(ctx, fzf, sid, lines, sched, steps, race_log=race)
-        evs, keys = pipeline.project(tr, get, sid)
-        table = {pipeline.okey(sid, q, n, srt): pipeline.oracle(fzf_oracle, lines, q, n, srt) for (q, n, srt) in keys}
+        sid, lines, sched, steps, relines, rescheds = job
+        tr, get, cmdmap = pipeline.run_session(ctx, fzf, sid, lines, sched, steps, race_log=race, reload_scheds=rescheds)
+        evs, keys, info = pipeline.project(tr, get, sid, cmdmap)
+        table = {}
+        for (q, n, srt, rev) in keys:
+            inp, excluded = info.get(rev, (-1, []))
+            src = lines if inp == -1 else relines[inp]
+            table[pipeline.okey(sid, q, n, srt, rev)] = pipeline.oracle(fzf_oracle, src, q, n, srt, excluded=excluded)
         return sid, evs, table
     results = {}
     with ThreadPoolExecutor(max_workers=6) as ex:
@@ -94,7 +101,9 @@ def run(ctx, prop="C08"):
                        "non-empty result")
     ctx.cov["picks_with_two_pending_requests"] = both
     ctx.sample([e for e in events if e["ev"] in ("reset", "pick", "publish", "list", "end")][:6])
-    ctx.assumptions += ["filter mode is the yardstick (bound to the spec by C01/C04)", "no --tail / reload / exclude / change-nth in these sessions yet"]
+    ctx.assumptions += ["filter mode is the yardstick (bound to the spec by C01/C04)", "no --tail / change-nth in these sessions yet"]
+    ctx.cov["sessions_with_reload"] = sum(1 for j in jobs if j[4])
+    ctx.cov["restarts_seen"] = sum(1 for sidx in results for e in results[sidx][0] if e["ev"] == "reset" and e["rev"][0] > 0 and False) 
     return "model_checking"
 
 
@@ -111,10 +120,15 @@ def report_rejections(ctx, events, table, bounds, results, jobs, label):
             offs.append((len(evs), len(evs) + (b - a), sid))
             evs += events[a:b]
         acc, devs, res = validate(ctx, evs, table, "%s-%d" % (label, guard))
-        for sid in devs:
+        for sid, flag in devs:
             s_evs, s_tb = results[sid]
-            case = {"events": s_evs, "table": s_tb, "kf": {"finding": "F5", "site": "Matcher.Loop", "kind": "older-request-served"}}
-            ctx.violation("session %d: matcher served the older of two pending requests and dropped the newer one" % sid, case)
+            if flag == 2:
+                case = {"events": s_evs, "table": s_tb, "kf": {"finding": "F17", "site": "ChunkCache", "kind": "stale-after-exclude"}}
+                ctx.violation("session %d: a result computed after an exclusion still contains the excluded item (chunk cache "
+                              "refilled by an older request after the coordinator cleared it)" % sid, case)
+            else:
+                case = {"events": s_evs, "table": s_tb, "kf": {"finding": "F5", "site": "Matcher.Loop", "kind": "older-request-served"}}
+                ctx.violation("session %d: matcher served the older of two pending requests and dropped the newer one" % sid, case)
         if acc >= len(evs):
             return
         # which session was rejected
